@@ -70,11 +70,11 @@ Proof. destruct l; [reflexivity|discriminate]. Qed.
 
 (* CoreDID::parse, for EVERY byte string (no percent exclusion needed: check_validity re-validates
    the whole method id and the guards exclude the parser's offset overshoot) *)
-Theorem core_did_parse_sound s m i : core_did_parse s = Ok (m, i) ->
+Theorem core_did_parse_tp_sound s m i : core_did_parse_tp s = Ok (m, i) ->
   s = [100; 105; 100; 58] ++ m ++ [58] ++ i
   /\ m <> [] /\ i <> [] /\ valid_method_name m = true /\ valid_method_id i = true.
 Proof.
-  unfold core_did_parse. intros H.
+  unfold core_did_parse_tp. intros H.
   destruct (list_eqb (trim s) s) eqn:T; cbn [negb] in H; [|discriminate].
   apply list_eqb_eq in T.
   destruct (ends_with_pct s); [discriminate|].
@@ -191,6 +191,39 @@ Proof.
   induction m as [|c r IH]; [reflexivity|]. cbn. intros V.
   apply andb_prop in V as [A B]. rewrite (char_method_no_delim _ A). auto.
 Qed.
+(* ---- str::split_once ---- *)
+Lemma split_once_some c l : forall a b, split_once c l = Some (a, b) -> l = a ++ c :: b /\ ~ In c a.
+Proof. induction l as [|x l IH]; intros a b; cbn [split_once]; [discriminate|]. destruct (x =? c) eqn:E.
+  - intros H. injection H as <- <-. apply N.eqb_eq in E. subst x. split; [reflexivity|intros []].
+  - destruct (split_once c l) as [[a' b']|]; [|discriminate]. intros H. injection H as <- <-. destruct (IH a' b' eq_refl) as [-> Hn].
+    split; [reflexivity|]. intros [Hx|Hx]; [subst x; rewrite N.eqb_refl in E; discriminate|exact (Hn Hx)]. Qed.
+Lemma split_once_none c l : split_once c l = None -> ~ In c l.
+Proof. induction l as [|x l IH]; cbn [split_once]; [intros _ []|]. destruct (x =? c) eqn:E; [discriminate|]. destruct (split_once c l) as [[a b]|]; [discriminate|].
+  intros _ [Hx|Hx]; [subst x; rewrite N.eqb_refl in E; discriminate|exact (IH eq_refl Hx)]. Qed.
+Lemma split_once_app c a b : ~ In c a -> split_once c (a ++ c :: b) = Some (a, b).
+Proof. induction a as [|x a IH]; intros H; cbn [app split_once]; [rewrite N.eqb_refl; reflexivity|].
+  destruct (x =? c) eqn:E; [apply N.eqb_eq in E; subst x; exfalso; apply H; left; reflexivity|]. rewrite IH; [reflexivity|]. intros Hc. apply H. right. exact Hc. Qed.
+Lemma split_once_notin c l : ~ In c l -> split_once c l = None.
+Proof. induction l as [|x l IH]; intros H; cbn [split_once]; [reflexivity|]. destruct (x =? c) eqn:E; [apply N.eqb_eq in E; subst; exfalso; apply H; left; reflexivity|].
+  rewrite IH; [reflexivity|]. intros Hc. apply H. right. exact Hc. Qed.
+
+(* CoreDID::parse (own splitter), for EVERY byte string *)
+Theorem core_did_parse_sound s m i : core_did_parse s = Ok (m, i) ->
+  s = [100; 105; 100; 58] ++ m ++ [58] ++ i
+  /\ m <> [] /\ i <> [] /\ valid_method_name m = true /\ valid_method_id i = true.
+Proof.
+  unfold core_did_parse. intros H. destruct s as [|a [|b [|c [|col rest]]]]; try discriminate.
+  - destruct (negb _); discriminate.
+  - destruct ((a =? 100) && (b =? 105) && (c =? 100)) eqn:E3; cbn [negb] in H; [|discriminate].
+    apply andb_prop in E3 as [E3 Ec]. apply andb_prop in E3 as [Ea Eb]. apply N.eqb_eq in Ea, Eb, Ec. subst a b c.
+    unfold is_colon in H. destruct (col =? 58) eqn:E4; cbn [negb] in H; [|discriminate]. apply N.eqb_eq in E4. subst col.
+    destruct (split_once 58 rest) as [[m' i']|] eqn:S; cbn [fst snd] in H.
+    + destruct (is_nil m' || negb (valid_method_name m')) eqn:G1; [discriminate|]. destruct (is_nil i' || negb (valid_method_id i')) eqn:G2; [discriminate|].
+      injection H as <- <-. apply orb_false_elim in G1 as [N1 V1]. apply orb_false_elim in G2 as [N2 V2]. apply negb_false_iff in V1, V2.
+      destruct (split_once_some _ _ _ _ S) as [-> _]. repeat split; auto; intros ->; discriminate.
+    + cbn [is_nil] in H. destruct (is_nil rest || negb (valid_method_name rest)); [discriminate|]. cbn [orb] in H. discriminate.
+Qed.
+
 Theorem core_did_no_url_parts s m i : core_did_parse s = Ok (m, i) ->
   existsb stop_mid m = false /\ existsb stop_mid i = false.
 Proof.
